@@ -86,7 +86,7 @@ fn module_trace_program(bytes: &[u8]) -> crate::ast::Program {
     use crate::ast::*;
     use std::cell::{Cell, RefCell};
     use std::rc::Rc;
-    let (mut p, _) = crate::gen_mod::program(bytes);
+    let (mut p, _) = crate::gen_mod::program_opts(bytes, false);
     let mut rd = Rd::new(bytes, 400);
     let v = |x: &str| Expr::var(x);
     let n = |x: f64| Expr::Num(x);
